@@ -392,3 +392,77 @@ def _ordering(h, which):
 
 for _w in ('sorting', 'monotonic'):
     contract('C16/constraints.%s' % _w, ['C16'], K + _w + '.dec.func', samples=150)(lambda h, w=_w: _ordering(h, w))
+
+
+@contract('C16/tools.suppressed', ['C16'], T + 'suppressed.dec.func', samples=200)
+def suppressed(h):
+    """clip=True: exactly the entries with |x| < tol are zeroed, every other entry is unchanged -- on the input (exit=False)
+    or on the result of the decorated function (exit=True); any length.  clip=False (three entries, not all suppressed):
+    the suppressed entries are zeroed and their sum is spread evenly over the others, so the total is preserved"""
+    exit_ = h.choice('exit', [False, True])
+    clip = h.choice('clip', [True, False])
+    tol = h.real('tol')
+    h.assume('tol > 0', tol=tol)
+    if clip:
+        x = h.list_real('x')
+        n = h.len(x)
+    else:
+        x = h.vec('x', 3)
+        n = 3
+    x0 = h.snapshot(x)
+    f = h.fn('F', ret='same' if exit_ else 'real', log='calls')
+    func = h.call(h.call(h.get(T + 'suppressed'), tol, exit_, clip), f)
+    src = h.call(h.fn('F', ret='same'), x0) if exit_ else x0
+    if not clip:
+        # (all entries suppressed: nothing to spread the mass over, numpy divides by zero -- outside the clause)
+        h.assume('not (abs(s[0]) < tol and abs(s[1]) < tol and abs(s[2]) < tol)', s=src, tol=tol)
+    r = h.call(func, x)
+    calls = h.log('calls')
+    h.check('decorated-function-called-once', 'len(calls) == 1', calls=calls)
+    y = r if exit_ else calls[0][0]
+    if clip:
+        h.check('small-entries-zeroed-others-unchanged',
+                'len(y) == n and forall(0, n, lambda q: y[q] == (0 if abs(src[q]) < tol else src[q]))', y=y, src=src, tol=tol, n=n)
+    else:
+        e = dict(y=y, tol=tol, a=h.ev('s[0]', s=src), b=h.ev('s[1]', s=src), c=h.ev('s[2]', s=src))
+        small = ['abs(%s) < tol' % v for v in 'abc']
+        h.check('small-entries-zeroed', ' and '.join('implies(%s, y[%d] == 0)' % (sm, i) for i, sm in enumerate(small)), **e)
+        h.check('total-preserved', 'y[0] + y[1] + y[2] == a + b + c', **e)
+        h.check('the-others-share-the-suppressed-mass-equally',
+                ' and '.join('implies(not (%s) and not (%s), y[%d] - %s == y[%d] - %s)' % (small[i], small[j], i, 'abc'[i], j, 'abc'[j])
+                             for i in range(3) for j in range(i + 1, 3)), **e)
+    h.check('input-vector-not-modified', 'seq_eq(x, x0)', x=x, x0=x0)
+
+
+@contract('C16/tools.masked', ['C16'], T + 'masked.dec.func', native=False)
+def masked(h):
+    """masked({k: v}): the decorated function receives the vector with each v INSERTED at position k of the result (keys in
+    ascending order), every given entry kept in order -- the result is len(x) + len(mask) long; an address beyond
+    len(x) + len(mask) - 1 or below 0 raises KeyError.  (List input; dill.source.getimport, which mystic uses to
+    preserve the input's type, is assumed to need no import for a builtin list.)"""
+    if not h.is_sym():
+        h.unsupported('symbolic only')
+    keys = h.choice('mask_keys', [(0,), (1, 3), (3, 1), (0, 1, 2), (2,), (5,)])
+    vals = [h.real('v%d' % j) for j in range(len(keys))]
+    nx = h.choice('len_x', [0, 1, 2, 3])
+    x = h.clist([h.real('x%d' % i) for i in range(nx)])
+    xs = list(h.st.heap[x])
+    f = h.fn('F', ret='real', log='calls')
+    func = h.call(h.call(h.get(T + 'masked'), h.st.alloc('dict', dict(zip(keys, vals)))), f)
+    r, exc = h.call_raises(func, x)
+    total = nx + len(keys)
+    if max(keys) > total - 1:
+        h.check('address-beyond-the-result-raises-KeyError', 'ok', ok=(exc == 'KeyError'))
+        return
+    h.check('no-exception', 'ok', ok=(exc is None))
+    if exc is not None:
+        return
+    calls = h.log('calls')
+    want = list(xs)
+    for k_, v_ in sorted(zip(keys, vals), key=lambda kv: kv[0]):
+        want.insert(k_, v_)
+    y = calls[0][0]
+    got = list(h.st.heap[y]) if hasattr(y, 'kind') and y.kind == 'clist' else None
+    h.check('decorated-function-gets-the-vector-with-the-masked-values-inserted', 'ok',
+            ok=(len(calls) == 1 and got is not None and len(got) == total and all(g is w for g, w in zip(got, want))))
+    h.check('input-vector-not-modified', 'ok', ok=(list(h.st.heap[x]) == xs or all(a is b for a, b in zip(h.st.heap[x], xs))))
